@@ -6,10 +6,12 @@
      compose/workflow.go      : canonicalTargetPath                            (Gen/C15Canonical.v)
      compose/field_mapping.go : isFromAll, isToAll, validateStructOrMap, validateFieldMapping with its two
                                 checker closures and the combined checker      (Gen/C15Validate.v)
+     compose/field_mapping.go : checkAndExtractFromMapKey, checkAndExtractFromField, takeOne (Gen/C15TakeOne.v)
+     compose/field_mapping.go : fieldMap (streamFieldMap = fieldMap(mappings, true) per chunk)   (Gen/C15FieldMap.v)
 
    by statement-by-statement translation are extensionally the functions of Model/FieldMap.v and
    Model/FieldMapPromote.v that the C15 theorems are about ([extract_ty], [tinsert_all] on the
-   declaration's target paths, [expand], [validate], [check_value], [run_checks]) — for every struct environment, promotion table, type, path,
+   declaration's target paths, [expand], [validate], [check_value], [run_checks], [take_one], [field_map]) — for every struct environment, promotion table, type, path,
    trie and path list, with the partial operations (reflect's Elem / Key / FieldByName on a type of
    the wrong kind, a type assertion on a value of another type, a write into a nil map: all panic in
    Go, [None] here) shown never to be reached.  An edit of one of the Go functions that changes its
@@ -21,7 +23,7 @@
    not an alarm). *)
 From Eino Require Import Base.Util Base.FMUniverse Model.FieldMap Model.FieldMapPromote Model.FieldMapGenLib
   Proofs.FieldMapOverlap Proofs.FieldMapAssign.
-From Eino Require Gen.C15FieldType Gen.C15MappedPath Gen.C15Canonical Gen.C15Validate.
+From Eino Require Gen.C15FieldType Gen.C15MappedPath Gen.C15Canonical Gen.C15Validate Gen.C15TakeOne Gen.C15FieldMap.
 
 (* ------------------------------------------------------------------ extractFieldType *)
 
@@ -416,4 +418,202 @@ Example gen_validate_answers :
   /\ Gen.C15Validate.combined_checker (fun _ => check_value) [([2%N], (2%nat, TInt))] [([2%N], VStr "s")] = Err ECheck
   /\ Gen.C15Validate.combined_checker (fun _ => check_value) [([2%N], (2%nat, TInt))] [([2%N], VInt 5); ([4%N], VNil)] = Ok [([2%N], VInt 5); ([4%N], VNil)]
   /\ Gen.C15Validate.combined_checker (fun _ => check_value) [([2%N], (2%nat, TInt))] [([4%N], VNil)] = Ok [([4%N], VNil)].
+Proof. repeat split; reflexivity. Qed.
+
+(* ------------------------------------------------------------------ takeOne *)
+
+(* what fieldMap does with takeOne's result: the taken value, or the class of the error *)
+Definition gres_res {A B} (f : A -> B) (r : gres A) : res B :=
+  match r with GOk a => Ok (f a) | GErr e => Err (gerr_class e) end.
+
+(* takeOne on reflect.ValueOf(v), with the (non-nil) type fieldMap passes along, is the model's take_one:
+   the same value is taken, the same class of error (key not found / anything else) is returned, and
+   no reflect call panics — for every value, well typed or not *)
+Theorem gen_take_one_agrees : forall env v ot f,
+  (v <> VNil -> ot <> None) ->
+  option_map (gres_res fst) (Gen.C15TakeOne.take_one env (rv_of v) ot f) = Some (take_one env v f).
+Proof.
+  intros env v ot f Hot. unfold Gen.C15TakeOne.take_one.
+  assert (Ht : forall z, v = VInt z \/ (exists s, v = VStr s) -> exists t, ot = Some t).
+  { intros z Hv. destruct ot as [t|]; [exists t; reflexivity|]. exfalso. apply Hot; [|reflexivity].
+    destruct Hv as [->|[s ->]]; discriminate. }
+  destruct v as [|z|s|n fs|u [w|]|ks e [es|]]; cbn [rv_of rv_is_valid negb].
+  - (* nil *) reflexivity.
+  - (* int *) destruct (Ht z (or_introl eq_refl)) as [t ->]. cbn -[rt_kind_is]. destruct (rt_kind_is _ t); reflexivity.
+  - (* string *) destruct (Ht 0%Z (or_intror (ex_intro _ s eq_refl))) as [t ->]. cbn -[rt_kind_is]. destruct (rt_kind_is _ t); reflexivity.
+  - (* struct *)
+    cbn -[lookup_field]. unfold Gen.C15TakeOne.check_and_extract_from_field, rv_field_by_name, take_field. cbn -[lookup_field].
+    destruct (lookup_field env n f) as [[[|] ft]|]; cbn; reflexivity.
+  - (* pointer *)
+    cbn -[lookup_field]. destruct (is_any u) eqn:Hu.
+    + destruct w; cbn; rewrite ?Hu; reflexivity.
+    + destruct w as [|z|s|n fs|u' o|ks e o]; cbn -[lookup_field]; rewrite ?Hu; try reflexivity.
+      unfold Gen.C15TakeOne.check_and_extract_from_field, rv_field_by_name, take_field. cbn -[lookup_field].
+      destruct (lookup_field env n f) as [[[|] ft]|]; cbn; reflexivity.
+  - (* nil pointer *) reflexivity.
+  - (* map *)
+    cbn. unfold Gen.C15TakeOne.check_and_extract_from_map_key. cbn.
+    destruct ks; cbn; [|reflexivity]. destruct (aget f es); reflexivity.
+  - (* nil map *)
+    cbn. unfold Gen.C15TakeOne.check_and_extract_from_map_key. cbn.
+    destruct ks; reflexivity.
+Qed.
+
+(* the type takeOne hands back for the next step is not the nil reflect.Type when the taken value is not nil *)
+Lemma rv_interface_type : forall r x t, rv_interface r = Some x -> rv_type r = Some t -> x <> VNil -> t <> None.
+Proof.
+  intros [a|] x t Hi Ht Hx; [|discriminate]. unfold rv_interface in Hi. unfold rv_type in Ht.
+  destruct (rv_can a); [|discriminate]. inversion Hi; inversion Ht; subst.
+  destruct (rv_iface a); [discriminate|]. destruct (rv_val a); try discriminate. contradiction.
+Qed.
+
+Lemma gen_take_one_type : forall env r ot f x t,
+  Gen.C15TakeOne.take_one env r ot f = Some (GOk (x, t)) -> x <> VNil -> t <> None.
+Proof.
+  intros env r ot f x t H Hx. unfold Gen.C15TakeOne.take_one in H.
+  repeat match type of H with
+         | context [match ?e with _ => _ end] => let E := fresh "E" in destruct e eqn:E; try discriminate
+         | context [if ?e then _ else _] => let E := fresh "E" in destruct e eqn:E; try discriminate
+         end;
+    inversion H; subst; eapply rv_interface_type; eauto.
+Qed.
+
+(* the second result: the type handed back for the next step is never the nil reflect.Type when a value is
+   taken from a well-formed value ... (fieldMap only passes it on to takeOne, which looks at it in the error
+   branch of a non-walkable value, where it is the type of a valid Value) *)
+Example gen_take_one_answers :
+  let env : senv := [(1%N, [(2%N, (true, TInt)); (3%N, (false, TInt)); (4%N, (true, TAny))])] in
+  Gen.C15TakeOne.take_one env (rv_of (VStruct 1 [(2%N, VInt 5)])) (Some (TStruct 1)) 2%N = Some (GOk (VInt 5, Some TInt))
+  /\ Gen.C15TakeOne.take_one env (rv_of (VStruct 1 [])) (Some (TStruct 1)) 4%N = Some (GOk (VNil, Some TAny))
+  /\ Gen.C15TakeOne.take_one env (rv_of (VStruct 1 [])) (Some (TStruct 1)) 3%N = Some (GErr GErrOther)
+  /\ Gen.C15TakeOne.take_one env (rv_of (VPtr (TStruct 1) None)) (Some (TPtr (TStruct 1))) 2%N = Some (GErr GErrOther)
+  /\ Gen.C15TakeOne.take_one env (rv_of (VMap true TAny (Some []))) (Some (TMap true TAny)) 2%N = Some (GErr GErrKey)
+  /\ Gen.C15TakeOne.take_one env (rv_of VNil) None 2%N = Some (GErr GErrIface)
+  /\ Gen.C15TakeOne.take_one env (rv_of (VInt 1)) (Some TAny) 2%N = Some (GErr GErrIface).
+Proof. repeat split; reflexivity. Qed.
+
+(* ------------------------------------------------------------------ fieldMap *)
+
+Definition po_res (o : path_outcome) : option (res val) :=
+  match o with PDone x => Some (Ok x) | PReturn e => Some (Err (gerr_class e)) | PContinueOuter => None end.
+
+(* what fieldMap does with the outcome of walking one source path: a missing key skips the mapping in Stream *)
+Definition tp_res (allow : bool) (r : res val) : option (res val) :=
+  match r with
+  | Err e => if N.eqb e EKey && allow then None else Some (Err e)
+  | x => Some x
+  end.
+
+Lemma gen_from_path_loop_agrees : forall env allow p cur ot,
+  (cur <> VNil -> ot <> None) ->
+  option_map po_res (Gen.C15FieldMap.from_path_loop env allow (rv_of cur) ot cur p)
+  = Some (tp_res allow (take_path env cur p)).
+Proof.
+  intros env allow p; induction p as [|f rest IH]; intros cur ot Hot.
+  - reflexivity.
+  - cbn [Gen.C15FieldMap.from_path_loop take_path].
+    pose proof (gen_take_one_agrees env cur ot f Hot) as H.
+    destruct (Gen.C15TakeOne.take_one env (rv_of cur) ot f) as [[[x t]|e]|] eqn:E; cbn in H; [| |discriminate].
+    + injection H as H1. rewrite <- H1. cbn [res_bind].
+      destruct rest as [|g rest'].
+      * reflexivity.
+      * cbn [rt_more]. apply IH. intro Hx. exact (gen_take_one_type _ _ _ _ _ _ E Hx).
+    + injection H as H1. rewrite <- H1. cbn [res_bind]. destruct e; cbn; destruct allow; reflexivity.
+Qed.
+
+Definition gres_id {A} (r : gres A) : res A := gres_res (fun a => a) r.
+
+Lemma gen_mappings_loop_agrees : forall env allow input ms iv acc,
+  iv = None \/ iv = rv_of input ->
+  option_map gres_id (Gen.C15FieldMap.mappings_loop env allow input iv acc ms)
+  = Some (field_map env ms allow input acc).
+Proof.
+  intros env allow input ms; induction ms as [|[from to] ms IH]; intros iv acc Hiv.
+  - reflexivity.
+  - cbn [Gen.C15FieldMap.mappings_loop field_map fst snd].
+    destruct from as [|f r].
+    + cbn. apply IH. exact Hiv.
+    + cbn [list_is_empty].
+      (* whichever branch computes it, inputValue is reflect.ValueOf(input) from here on *)
+      assert (Hstep : forall ot, (input <> VNil -> ot <> None) ->
+        option_map gres_id
+          match Gen.C15FieldMap.from_path_loop env allow (rv_of input) ot input (f :: r) with
+          | None => None
+          | Some (PReturn err) => Some (GErr err)
+          | Some PContinueOuter => Gen.C15FieldMap.mappings_loop env allow input (rv_of input) acc ms
+          | Some (PDone taken) => Gen.C15FieldMap.mappings_loop env allow input (rv_of input) (fm_set to taken acc) ms
+          end
+        = Some match take_path env input (f :: r) with
+               | Ok x => field_map env ms allow input (fm_set to x acc)
+               | Err e => if N.eqb e EKey && allow then field_map env ms allow input acc else Err e
+               | Panic => Panic
+               end).
+      { intros ot Hot. pose proof (gen_from_path_loop_agrees env allow (f :: r) input ot Hot) as H.
+        set (tp := take_path env input (f :: r)) in *.
+        destruct (Gen.C15FieldMap.from_path_loop env allow (rv_of input) ot input (f :: r)) as [[x|e|]|];
+          cbn [option_map po_res] in H; [| | |discriminate].
+        - destruct tp as [y|e'|]; cbn [tp_res] in H.
+          + inversion H; subst. apply IH. right; reflexivity.
+          + destruct (N.eqb e' EKey && allow); discriminate.
+          + discriminate.
+        - destruct tp as [y|e'|]; cbn [tp_res] in H.
+          + discriminate.
+          + destruct (N.eqb e' EKey && allow); [discriminate|]. inversion H; subst. reflexivity.
+          + discriminate.
+        - destruct tp as [y|e'|]; cbn [tp_res] in H; try discriminate.
+          destruct (N.eqb e' EKey && allow); [|discriminate]. apply IH. right; reflexivity. }
+      assert (Hin : forall iv', iv' = rv_of input ->
+        option_map gres_id
+          (let pathInputValue := iv' in let pathInputType : option ty := None in let taken := input in
+           if rv_is_valid iv' then
+             match rv_type iv' with
+             | None => None
+             | Some pathInputType =>
+                 match Gen.C15FieldMap.from_path_loop env allow pathInputValue pathInputType taken (f :: r) with
+                 | None => None
+                 | Some (PReturn err) => Some (GErr err)
+                 | Some PContinueOuter => Gen.C15FieldMap.mappings_loop env allow input iv' acc ms
+                 | Some (PDone taken0) => Gen.C15FieldMap.mappings_loop env allow input iv' (fm_set to taken0 acc) ms
+                 end
+             end
+           else
+             match Gen.C15FieldMap.from_path_loop env allow pathInputValue pathInputType taken (f :: r) with
+             | None => None
+             | Some (PReturn err) => Some (GErr err)
+             | Some PContinueOuter => Gen.C15FieldMap.mappings_loop env allow input iv' acc ms
+             | Some (PDone taken0) => Gen.C15FieldMap.mappings_loop env allow input iv' (fm_set to taken0 acc) ms
+             end)
+        = Some match take_path env input (f :: r) with
+               | Ok x => field_map env ms allow input (fm_set to x acc)
+               | Err e => if N.eqb e EKey && allow then field_map env ms allow input acc else Err e
+               | Panic => Panic
+               end).
+      { intros iv' ->. cbv zeta. destruct input as [|z|s|n fs|u o|ks e o]; cbn [rv_of rv_is_valid rv_type rv_iface rv_val dyn];
+          first [ apply (Hstep None); intro Hc; exfalso; apply Hc; reflexivity
+                | apply Hstep; intros _; discriminate ]. }
+      destruct Hiv as [->| ->].
+      * cbn [rv_is_valid negb]. apply Hin. reflexivity.
+      * assert (Hsame : forall (b : bool) (A : option (gres fmap)), (if b then A else A) = A) by (intros []; reflexivity).
+        cbv zeta. rewrite Hsame. exact (Hin (rv_of input) eq_refl).
+Qed.
+
+(* fieldMap(mappings, allowMapKeyNotFound)(input) = the model's field_map started with the empty map: the same
+   map of mapped values, or an error of the same class, and no reflect call panics — for every value *)
+Theorem gen_field_map_agrees : forall env ms allow input,
+  option_map gres_id (Gen.C15FieldMap.field_map env ms allow input) = Some (field_map env ms allow input []).
+Proof. intros. unfold Gen.C15FieldMap.field_map. apply gen_mappings_loop_agrees. left; reflexivity. Qed.
+
+Corollary gen_stream_field_map_chunk_agrees : forall env ms chunk,
+  option_map gres_id (Gen.C15FieldMap.stream_field_map_chunk env ms chunk) = Some (field_map env ms true chunk []).
+Proof. intros. apply gen_field_map_agrees. Qed.
+
+Example gen_field_map_answers :
+  let env : senv := [(1%N, [(2%N, (true, TInt)); (4%N, (true, TAny))])] in
+  let src := VStruct 1 [(2%N, VInt 5); (4%N, VMap true TAny (Some [(7%N, VStr "s")]))] in
+  Gen.C15FieldMap.field_map env [([2%N], [9%N]); ([4%N; 7%N], [8%N]); ([], [6%N])] false src
+    = Some (GOk [([9%N], VInt 5); ([8%N], VStr "s"); ([6%N], src)])
+  /\ Gen.C15FieldMap.field_map env [([4%N; 3%N], [8%N]); ([2%N], [9%N])] false src = Some (GErr GErrKey)
+  /\ Gen.C15FieldMap.field_map env [([4%N; 3%N], [8%N]); ([2%N], [9%N])] true src = Some (GOk [([9%N], VInt 5)])
+  /\ Gen.C15FieldMap.field_map env [([2%N; 3%N], [8%N])] true src = Some (GErr GErrOther)
+  /\ Gen.C15FieldMap.field_map env [([2%N], [8%N])] true VNil = Some (GErr GErrIface).
 Proof. repeat split; reflexivity. Qed.
